@@ -656,4 +656,96 @@ theorem serve_generic {P : Params σ} {Q : σ → Prop} (c : Cfg) (sv pd : Lens 
   · exact ⟨Nat.le_refl _, Nat.le_refl _⟩
   · exact ⟨rfl, hh.2.1, hh.2.2⟩
 
+/-! ### the ghost fields are never read -/
+
+/-- the real (non-ghost) part of the state. -/
+structure Core (σ : Type) where
+  rq : List Item
+  dq : List Event
+  pq : List (RunRec × Bool)
+  fq : List Event
+  hq : List Resp
+  ds : σ
+  nid : Nat
+  nts : Nat
+  err : Option String
+
+def core (s : St σ) : Core σ := ⟨s.rq, s.dq, s.pq, s.fq, s.hq, s.ds, s.nid, s.nts, s.err⟩
+
+theorem core_task (P : Params σ) (t : Task) (s s' : St σ) (h : core s = core s') :
+    core (taskUpdate P t s).1 = core (taskUpdate P t s').1 ∧ (taskUpdate P t s).2 = (taskUpdate P t s').2 := by
+  cases s; cases s'
+  simp only [core, Core.mk.injEq] at h
+  obtain ⟨rfl, rfl, rfl, rfl, rfl, rfl, rfl, rfl, rfl⟩ := h
+  cases t <;>
+    simp only [taskUpdate, recvUpdate, processData, decUpdate, prodUpdate, fwdUpdate, fwdHandle, fwdResponses,
+      subsOf_receiver, subsOf_decider, subsOf_producer, subsOf_forwarder, List.foldl_cons, List.foldl_nil,
+      deliverRecv, deliverDec, deliverProd, deliverFwd, addData, core, mkComplex, mkAction] <;>
+    (repeat' split) <;> simp_all
+
+theorem core_err {s s' : St σ} (h : core s = core s') : s.err = s'.err := congrArg Core.err h
+
+theorem core_whileLoop (P : Params σ) (t : Task) :
+    ∀ fuel (s s' : St σ), core s = core s' →
+      core (whileLoop (taskUpdate P t) fuel s).1 = core (whileLoop (taskUpdate P t) fuel s').1 := by
+  intro fuel
+  induction fuel with
+  | zero => intro s s' h; simpa [whileLoop] using h
+  | succ n ih =>
+    intro s s' h
+    have hc := core_task P t s s' h
+    simp only [whileLoop, core_err hc.1, hc.2]
+    split
+    · exact hc.1
+    · split
+      · exact ih _ _ hc.1
+      · exact hc.1
+
+theorem core_forLoop (P : Params σ) (t : Task) (early : Bool) :
+    ∀ n (s s' : St σ), core s = core s' →
+      core (forLoop (taskUpdate P t) early n s) = core (forLoop (taskUpdate P t) early n s') := by
+  intro n
+  induction n with
+  | zero => intro s s' h; simpa [forLoop] using h
+  | succ n ih =>
+    intro s s' h
+    have hc := core_task P t s s' h
+    simp only [forLoop, core_err hc.1, hc.2]
+    split
+    · exact hc.1
+    · split
+      · exact hc.1
+      · exact ih _ _ hc.1
+
+theorem core_measure (t : Task) {s s' : St σ} (h : core s = core s') : taskMeasure t s = taskMeasure t s' := by
+  have h1 := congrArg Core.rq h; have h2 := congrArg Core.dq h; have h3 := congrArg Core.pq h
+  have h4 := congrArg Core.fq h; have h5 := congrArg Core.hq h
+  simp only [core] at h1 h2 h3 h4 h5
+  cases t <;> simp [taskMeasure, *]
+
+theorem core_runTask (P : Params σ) (c : Cfg) (tt : Task × Nat) (s s' : St σ) (h : core s = core s') :
+    core (runTask P c s tt) = core (runTask P c s' tt) := by
+  unfold runTask runTaskFuel
+  rw [core_err h, core_measure tt.1 h]
+  split
+  · exact h
+  · split
+    · exact core_whileLoop P tt.1 _ _ _ h
+    · exact core_forLoop P tt.1 _ _ _ _ h
+
+theorem core_engineUpdate (P : Params σ) (c : Cfg) (s s' : St σ) (h : core s = core s') :
+    core (engineUpdate P c s) = core (engineUpdate P c s') := by
+  unfold engineUpdate
+  have h0 : core { s with err := none } = core { s' with err := none } := by
+    have h1 := congrArg Core.rq h; have h2 := congrArg Core.dq h; have h3 := congrArg Core.pq h
+    have h4 := congrArg Core.fq h; have h5 := congrArg Core.hq h; have h6 := congrArg Core.ds h
+    have h7 := congrArg Core.nid h; have h8 := congrArg Core.nts h
+    simp only [core] at h1 h2 h3 h4 h5 h6 h7 h8 ⊢
+    simp [*]
+  generalize ({ s with err := none } : St σ) = a at h0
+  generalize ({ s' with err := none } : St σ) = a' at h0
+  induction (schedule c) generalizing a a' with
+  | nil => simpa using h0
+  | cons tt l ih => exact ih _ _ (core_runTask P c tt a a' h0)
+
 end Bobo.Engine
